@@ -25,7 +25,7 @@ import (
 
 func TestMain(m *testing.M) {
 	stats.Init("C05")
-	stats.Rule("rapid state machine over {rep,respondent} with 1-3 contexts and {xrep,xrespondent}, 1-4 vt pipes; actions request(pipe,depth 0..7,random routing words)/recv/send/sendNoRequest/dropPipe/addPipe/openCtx; final sentinel round on every live pipe. Non-trivial: >=2 requests from different pipes outstanding at once, or routing depth>=1, or a pipe dropped before its reply; distinct by (socket kind, action/outcome sequence)")
+	stats.Rule("rapid state machine over {rep,respondent} with 1-3 contexts and {xrep,xrespondent}, 1-4 vt pipes; actions request(pipe,depth 0..7,random routing words)/recv/send/sendNoRequest/dropPipe/addPipe/openCtx; final sentinel round on every live pipe. Non-trivial: >=2 requests from different pipes outstanding at once, or routing depth>=1, or a pipe dropped before its reply; distinct by (socket kind, action/outcome sequence). Round 5: closeCtx (context closed with an unanswered request)")
 	rc := m.Run()
 	stats.Flush()
 	os.Exit(rc)
